@@ -146,8 +146,20 @@ fn gen_pdu(t: &mut Tape) -> WirePdu {
             WirePdu::Error {
                 v,
                 code: t.choose(12) as u16,
-                pdu: (0..plen).map(|i| i as u8).collect(),
-                text: (0..tlen).map(|i| b'a' + (i % 26) as u8).collect(),
+                pdu: match t.choose(3) {
+                    0 => (0..plen).map(|i| i as u8).collect(),
+                    1 => (0..plen).map(|i| 0xf0u8.wrapping_add(i as u8)).collect(),
+                    _ => (0..plen).map(|_| t.choose(256) as u8).collect(),
+                },
+                // diagnostic text is "UTF-8" per the RFC but arrives as octets:
+                // ASCII, well-formed multi-byte, Latin-1, truncated sequences
+                text: match t.choose(5) {
+                    0 => (0..tlen).map(|i| b'a' + (i % 26) as u8).collect(),
+                    1 => "gr\u{fc}\u{df}e \u{20ac} \u{1F600}".as_bytes().iter().copied().cycle().take(tlen).collect(),
+                    2 => (0..tlen).map(|i| 0xe0u8.wrapping_add(i as u8)).collect(),
+                    3 => (0..tlen).map(|_| t.choose(256) as u8).collect(),
+                    _ => { let mut v: Vec<u8> = (0..tlen).map(|i| b'a' + (i % 26) as u8).collect(); if let Some(l) = v.last_mut() { *l = 0xc3; } v }
+                },
             }
         }
         _ => gen_payload_pdu(t, v),
